@@ -36,6 +36,12 @@ macro_rules! env_proof {
         #[kani::stub(<std::fs::File as std::os::unix::fs::FileExt>::read_at, crate::kani_support::stubs::file_read_at)]
         #[kani::stub(std::fs::remove_file, crate::kani_support::stubs::remove_file)]
         #[kani::stub(std::fs::OpenOptions::open, crate::kani_support::stubs::open_options_open)]
+        #[kani::stub(crate::config::Config::read_buffer_size, crate::kani_support::stubs::cfg_read_buffer_size)]
+        #[kani::stub(crate::config::Config::truncate_incomplete_record, crate::kani_support::stubs::cfg_truncate_incomplete_record)]
+        #[kani::stub(crate::config::Config::chunk_max_records, crate::kani_support::stubs::cfg_chunk_max_records)]
+        #[kani::stub(crate::config::Config::chunk_max_size, crate::kani_support::stubs::cfg_chunk_max_size)]
+        #[kani::stub(crate::config::Config::log_cache_max_items, crate::kani_support::stubs::cfg_log_cache_max_items)]
+        #[kani::stub(crate::config::Config::log_cache_capacity, crate::kani_support::stubs::cfg_log_cache_capacity)]
         #[kani::stub(crate::config::Config::chunk_path, crate::kani_support::stubs::chunk_path)]
         #[kani::stub(crate::chunk::Chunk::open_chunk_file, crate::kani_support::stubs::open_chunk_file)]
         #[kani::stub(crate::file_lock::FileLock::new, crate::file_lock::kani_h_a_lock::stub_lock_new)]
@@ -64,6 +70,12 @@ macro_rules! env_proof {
         #[kani::stub(<std::fs::File as std::os::unix::fs::FileExt>::read_at, crate::kani_support::stubs::file_read_at)]
         #[kani::stub(std::fs::remove_file, crate::kani_support::stubs::remove_file)]
         #[kani::stub(std::fs::OpenOptions::open, crate::kani_support::stubs::open_options_open)]
+        #[kani::stub(crate::config::Config::read_buffer_size, crate::kani_support::stubs::cfg_read_buffer_size)]
+        #[kani::stub(crate::config::Config::truncate_incomplete_record, crate::kani_support::stubs::cfg_truncate_incomplete_record)]
+        #[kani::stub(crate::config::Config::chunk_max_records, crate::kani_support::stubs::cfg_chunk_max_records)]
+        #[kani::stub(crate::config::Config::chunk_max_size, crate::kani_support::stubs::cfg_chunk_max_size)]
+        #[kani::stub(crate::config::Config::log_cache_max_items, crate::kani_support::stubs::cfg_log_cache_max_items)]
+        #[kani::stub(crate::config::Config::log_cache_capacity, crate::kani_support::stubs::cfg_log_cache_capacity)]
         #[kani::stub(crate::config::Config::chunk_path, crate::kani_support::stubs::chunk_path)]
         #[kani::stub(crate::chunk::Chunk::open_chunk_file, crate::kani_support::stubs::open_chunk_file)]
         #[kani::stub(crate::file_lock::FileLock::new, crate::file_lock::kani_h_a_lock::stub_lock_new)]
@@ -91,6 +103,12 @@ macro_rules! env_proof {
         #[kani::stub(<std::fs::File as std::os::unix::fs::FileExt>::read_at, crate::kani_support::stubs::file_read_at)]
         #[kani::stub(std::fs::remove_file, crate::kani_support::stubs::remove_file)]
         #[kani::stub(std::fs::OpenOptions::open, crate::kani_support::stubs::open_options_open)]
+        #[kani::stub(crate::config::Config::read_buffer_size, crate::kani_support::stubs::cfg_read_buffer_size)]
+        #[kani::stub(crate::config::Config::truncate_incomplete_record, crate::kani_support::stubs::cfg_truncate_incomplete_record)]
+        #[kani::stub(crate::config::Config::chunk_max_records, crate::kani_support::stubs::cfg_chunk_max_records)]
+        #[kani::stub(crate::config::Config::chunk_max_size, crate::kani_support::stubs::cfg_chunk_max_size)]
+        #[kani::stub(crate::config::Config::log_cache_max_items, crate::kani_support::stubs::cfg_log_cache_max_items)]
+        #[kani::stub(crate::config::Config::log_cache_capacity, crate::kani_support::stubs::cfg_log_cache_capacity)]
         #[kani::stub(crate::config::Config::chunk_path, crate::kani_support::stubs::chunk_path)]
         #[kani::stub(crate::chunk::Chunk::open_chunk_file, crate::kani_support::stubs::open_chunk_file)]
         #[kani::stub(crate::file_lock::FileLock::new, crate::file_lock::kani_h_a_lock::stub_lock_new)]
@@ -120,6 +138,12 @@ macro_rules! env_proof {
         #[kani::stub(<std::fs::File as std::os::unix::fs::FileExt>::read_at, crate::kani_support::stubs::file_read_at)]
         #[kani::stub(std::fs::remove_file, crate::kani_support::stubs::remove_file)]
         #[kani::stub(std::fs::OpenOptions::open, crate::kani_support::stubs::open_options_open)]
+        #[kani::stub(crate::config::Config::read_buffer_size, crate::kani_support::stubs::cfg_read_buffer_size)]
+        #[kani::stub(crate::config::Config::truncate_incomplete_record, crate::kani_support::stubs::cfg_truncate_incomplete_record)]
+        #[kani::stub(crate::config::Config::chunk_max_records, crate::kani_support::stubs::cfg_chunk_max_records)]
+        #[kani::stub(crate::config::Config::chunk_max_size, crate::kani_support::stubs::cfg_chunk_max_size)]
+        #[kani::stub(crate::config::Config::log_cache_max_items, crate::kani_support::stubs::cfg_log_cache_max_items)]
+        #[kani::stub(crate::config::Config::log_cache_capacity, crate::kani_support::stubs::cfg_log_cache_capacity)]
         #[kani::stub(crate::config::Config::chunk_path, crate::kani_support::stubs::chunk_path)]
         #[kani::stub(crate::chunk::Chunk::open_chunk_file, crate::kani_support::stubs::open_chunk_file)]
         #[kani::stub(crate::file_lock::FileLock::new, crate::file_lock::kani_h_a_lock::stub_lock_new)]
@@ -130,3 +154,17 @@ macro_rules! env_proof {
     };
 }
 pub(crate) use env_proof;
+
+/// `env_proof!` + ghost-constant Config accessors (chunk-file replay harnesses).
+macro_rules! replay_proof {
+    (unwind = $u:expr, crc = $crc:ident, fn $name:ident() $body:block) => {
+        crate::kani_support::env_proof! {
+            unwind = $u, crc = $crc,
+            #[kani::stub(std::io::Error::kind, crate::kani_support::stubs::io_error_kind)]
+            #[kani::stub(<std::os::fd::OwnedFd as core::ops::Drop>::drop, crate::kani_support::stubs::owned_fd_drop)]
+            #[kani::stub(<std::fs::File as fs2::FileExt>::unlock, crate::kani_support::stubs::flock_unlock)]
+            fn $name() $body
+        }
+    };
+}
+pub(crate) use replay_proof;
